@@ -23,7 +23,7 @@ FEATS = dict(c01.FEATS, wacc=1, sto_costs=1, extras=["mc", "ob", "dem", "plantfu
 
 def build_cases(tier):
     K = 2 if tier == "quick" else 3
-    split = dict(FEATS, grids=["8x6h", "4x6h_off", "7xh_autumn"], modes=["split:12h", "split:d", "split:5h"])
+    split = dict(FEATS, grids=["8x6h", "4x6h_off", "7xh_autumn"], modes=["split:12h", "split:d", "split:5h"], common_window=[8, 1, 9])
     cases, stats = merge_cases(family("main", lambda ch: S.gen_portfolio(ch, FEATS), K),
                                family("split", lambda ch: S.gen_portfolio(ch, split), K),
                                family("wrapped", c07.gen_wrapped, K))
